@@ -37,7 +37,7 @@ def map_ops(run):
 
 def r1(run):
     ops = map_ops(run)
-    run.floor("keyed registry operations in the serve modules", len(ops), 8)
+    run.floor("keyed registry operations in the serve modules", len(ops), 6)
     maps = set()
     for (b, c) in ops:
         fn = run.facts.enclosing_fn(b)
